@@ -891,6 +891,7 @@ pub struct Generated {
     pub manifest: AnyManifest,
     pub life: Life,
     pub ops: Vec<&'static str>,
+    #[allow(dead_code)]
     pub cleaned_up: bool,
 }
 
@@ -1495,6 +1496,19 @@ pub fn gen_manifest(rng: &mut Rng, cfg: &ManifestCfg) -> Generated {
         Kind::SubintentV2 => AnyManifest::SubintentV2(SubintentManifestV2 { instructions, blobs, children, object_names }),
     };
     Generated { manifest, life, ops, cleaned_up }
+}
+
+/// file:line of a panic, independent of where the repository / cargo registry lives.
+pub fn panic_site(p: &rv_common::PanicInfo) -> String {
+    let loc = p.location.as_str();
+    if let Some(i) = loc.rfind("/repo/") {
+        return loc[i + 6..].to_string();
+    }
+    if let Some(i) = loc.find("/registry/src/") {
+        let rest = &loc[i + 14..];
+        return rest.split_once('/').map(|(_, r)| r.to_string()).unwrap_or_else(|| rest.to_string());
+    }
+    loc.to_string()
 }
 
 pub fn manifest_hex(m: &AnyManifest) -> Option<String> {
